@@ -629,6 +629,8 @@ fn cmd_run(args: &[String]) -> i32 {
                 let cur = sh.cur.take().expect("failure outside a run");
                 let prepared = exec::take_current().expect("prepared scenario");
                 let mut sc = prepared.scenario;
+                // classify first: the classification looks at the run state that take_output() resets
+                let v = failure_violation(&sh.work.property, &payload);
                 let out_run = exec::take_output();
                 let rec = sched::peek_record();
                 if !out_run.recorded_ops.is_empty() {
@@ -637,7 +639,6 @@ fn cmd_run(args: &[String]) -> i32 {
                     }
                     sc.threads[0] = out_run.recorded_ops.clone();
                 }
-                let v = failure_violation(&sh.work.property, &payload);
                 sh.agg.evaluations += 1;
                 sh.agg.steps += rec.steps;
                 *sh.agg.per_stratum.entry(sc.stratum.clone()).or_insert(0) += 1;
@@ -726,9 +727,9 @@ fn cmd_replay(args: &[String]) -> i32 {
         Ok(_) => SHARED.with(|s| s.borrow_mut().as_mut().unwrap().replay_result.take().unwrap_or((vec![], 0, None))),
         Err(e) => {
             let payload = payload_string(&e);
+            let v = failure_violation(&property, &payload);
             let out_run = exec::take_output();
             let rec = sched::peek_record();
-            let v = failure_violation(&property, &payload);
             (vec![v], history_hash(&out_run), rec.diverged)
         }
     };
@@ -805,9 +806,9 @@ fn cmd_rerecord(args: &[String]) -> i32 {
         }),
         Err(e) => {
             let payload = payload_string(&e);
+            let v = failure_violation(&property, &payload);
             let out_run = exec::take_output();
             let rec = sched::peek_record();
-            let v = failure_violation(&property, &payload);
             (vec![v], history_hash(&out_run), keep.scenario.clone(), rec)
         }
     };
